@@ -2,10 +2,10 @@ package helpers
 
 import (
 	"encoding/json"
-	"os/exec"
 	"fmt"
 	"math/rand"
 	"os"
+	"os/exec"
 	"path/filepath"
 	"sort"
 	"strings"
@@ -100,6 +100,31 @@ func RunPipeline(seed int64, tier, driver, outDir string, search bool) *core.Res
 		res.Failures = append(res.Failures, core.FailRec{Prop: "C20", Finding: finding,
 			Msg: fmt.Sprintf("%s %ss (phase %s, args %s): %s", s.Target, s.Kind, s.Phase, s.Args, s.Msg), File: file})
 	}
+	// (c) wait helpers under contention
+	nw := 40
+	if tier == "thorough" {
+		nw = 600
+	}
+	if search {
+		nw *= 3
+	}
+	wfails := 0
+	for i := 0; i < nw; i++ {
+		fs, line := WaiterScenario(seed*100003 + int64(i))
+		res.Evaluations++
+		for _, f := range fs {
+			wfails++
+			key := "waiters|" + strings.SplitN(f.Msg, "(", 2)[0]
+			if failSeen[key] {
+				continue
+			}
+			failSeen[key] = true
+			file := filepath.Join(outDir, fmt.Sprintf("C20-seed%d-waiters%d.wcase", seed, len(res.Failures)))
+			os.WriteFile(file, []byte(fmt.Sprintf("# wait helpers under contention: %s\n%s\n", f.Msg, line)), 0o644)
+			res.Failures = append(res.Failures, core.FailRec{Prop: "C20", Msg: f.Msg + " [" + line + "]", File: file})
+		}
+	}
+	res.Extra["waiter_scenarios"] = nw
 	sort.Strings(skipped)
 	res.Extra["skipped_targets"] = uniqStrings(skipped)
 	res.Evaluations += stats["ok"]
